@@ -158,19 +158,24 @@ CHECKS = {
         design='7 C18'),
     'C03': dict(
         text='Theorems over an executable Gallina model of the whole Extractor (clean, categories, coarse classification, '
-             'run-length encoding, VRLEs, fragment refinement, rendering, sample / extract / check / extend loop) for every '
-             'character table, option record and oracle tables: whenever a run ends with a check that reported no failure, '
-             'every example clean keeps is matched by a returned expression; clean discards exactly nulls, zero counts and '
-             '(on request) empties and its output is well formed; the check is complete. The extracted model replays every '
-             'real run from its recorded oracle tables (group splits, re.match results, random.sample choices) and must '
-             'return exactly the same expressions and working examples; character-level semantics, regex texts and '
-             'classifications are swept against CPython re; the property itself is checked on every run.',
-        note='partial: that the expressions of one batch extraction match the working examples they came from is validated by '
-             'the replay + coverage oracle, not yet a theorem (the loop theorem takes the final check\'s outcome as hypothesis, '
-             'observed on every run); re.match, the group split and random.sample are oracle tables; pruning options and the '
-             'portable/grep re-rendering are outside the loop theorem. Known finding: non-ASCII decimal digits under portable/grep.',
-        technique='Coq proof (loop/check/clean theorems over the Extractor model) + extracted-model replay of recorded oracle '
-                  'tables + code-point sweeps + coverage oracle',
+             'run-length encoding, VRLEs, fragment refinement, rendering, sample / extract / check / extend loop), for every '
+             'character table, option record and oracle tables. (1) One batch extraction covers its own working examples: '
+             'every working example is matched, at the level of what each fragment denotes, by one of the refined patterns '
+             '(C03_batch_covers; its core C03_refine_covers holds for ANY split into groups that respects the coarse '
+             'fragments, so it does not depend on how re resolves ambiguous splits). (2) Whenever a run ends with a check that '
+             'reported no failure, every example clean keeps is matched by a returned expression; clean discards exactly '
+             'nulls, zero counts and (on request) empties; the check is complete. The extracted model replays every real run '
+             'from its recorded oracle tables (group splits, re.match results, random.sample choices) and must return exactly '
+             'the same expressions and working examples; the oracle hypotheses of (1) are evaluated by the extracted model on '
+             'every recorded split; character-level semantics, regex texts and classifications are swept against CPython re; '
+             'the property itself is checked on every run.',
+        note='partial: the step from what a fragment denotes to what its rendered text means to CPython re (escape / bracket / '
+             'quantifier rendering) is validated by the sweeps, the replay and the coverage oracle, not yet by a parser theorem; '
+             're.match, the group split and random.sample are oracle tables; pruning options and the portable/grep re-rendering '
+             'are outside the loop theorem. Known finding: non-ASCII decimal digits under portable/grep.',
+        technique='Coq proof (batch/refine coverage by invariants over the accumulators and (V)RLE widening; loop/check/clean '
+                  'theorems) + extracted-model replay of recorded oracle tables with executable hypothesis checks + code-point '
+                  'sweeps + coverage oracle',
         design='7 C03'),
     'C13': dict(
         text='Theorems over the Extractor model: every returned expression is ^...$, there are never more expressions than '
